@@ -6,11 +6,11 @@ from props.sched_meta import TRUSTED, CORR as CORRESPONDENCE
 THEOREMS = [("Properties.C16", "C16_holds")]
 LEVEL_NOTE = ("Coq theorem C16_holds (every plan, every group size): from the moment the scheduler reaches a group whose members are all defined and executable, scheduler steps "
               "alone - no child exit or reap in between - start every member before it begins to wait. Partial: that spawning does not block on the OS is runtime behaviour. Tied by "
-              "real runs in which every member of a group of 2..48 children waits on a file-system barrier until all members have started (30 s dead-man, exit 99): the run must succeed.")
+              "real runs in which every member of a group of 2..48 children waits on a file-system barrier until all members have started (30 s dead-man, exit 99): the run must succeed, with and without a log listener attached.")
 RULE = ("group sizes {2,3,8,24,48} (thorough: 2..64) at the first, middle or last position of a 3-layer plan and under a second command; non-trivial = every case (the barrier makes sequential "
-        "execution fail); distinct by (size, position, commands)")
+        "execution fail); the same with a `log tail --stdout --stderr` listener attached and drained; distinct by (size, position, commands, listener)")
 
-def case(ctx, rng, n, position, two_cmds, undefined_ahead=0):
+def case(ctx, rng, n, position, two_cmds, undefined_ahead=0, listener=False):
     members = ["grp/m%02d" % i for i in range(n)]
     targets = []
     if position in ("middle", "last"): targets.append({"path": "base"})
@@ -31,14 +31,26 @@ def case(ctx, rng, n, position, two_cmds, undefined_ahead=0):
         rr.script = {"*": {}}
         for m in members: rr.script["build|%s" % m] = {"barrier": n, "barrier_id": "g"}
         rr.write_script()
+        lst = None
+        if listener:
+            # a `log tail` listener is attached for the whole run (and read promptly): streaming output to it must not
+            # make the members of a group wait for one another
+            import logscen, threading
+            lst = logscen.start_listener(rr, ["--stdout", "--stderr"])
+            threading.Thread(target=lambda: [None for _ in iter(lambda: lst.stdout.read(65536), b"")], daemon=True).start()
         try:
             rc, out, err, raw = rr.run("-c", *cmds, timeout=120)
         except Exception as e:
             import subprocess
             subprocess.run(["pkill", "-f", rr.repo], capture_output=True)
             rc, out, err, raw = -9, None, {"type": "timeout", "message": str(e)[:200]}, None
+        if lst is not None:
+            lst.terminate()
+            try: lst.wait(timeout=10)
+            except Exception: lst.kill()
         traces = rr.traces()
-        c = {"size": n, "position": position, "commands": cmds, "undefined_ahead": undefined_ahead}
+        c = {"size": n, "position": position, "commands": cmds, "undefined_ahead": undefined_ahead, "listener": listener}
+        ctx.count("listener_attached" if listener else "no_listener")
         ctx.count("undefined_ahead_%d" % (undefined_ahead * len(targets)))
         ctx.count("size_%d" % n); ctx.count("pos_" + position)
         if out is None:
@@ -66,8 +78,11 @@ def run(ctx, scale):
     # the same, behind a few hundred plan entries that start nothing
     for n in ([24, 48] if ctx.quick() else [8, 24, 48, 64]):
         case(ctx, random.Random(rng.getrandbits(32)), n, "first", False, undefined_ahead=-(-300 // n))
+    # the same with a `log tail` listener attached
+    for i, n in enumerate([2, 5, 24] if ctx.quick() else [2, 3, 5, 8, 24, 48]):
+        case(ctx, random.Random(rng.getrandbits(32)), n, ["middle", "first", "last"][i % 3], False, listener=True)
 
 def replay(ctx, c):
     c = c.get("case", c)
-    case(ctx, random.Random(ctx.seed), c["size"], c["position"], "lint" in c.get("commands", []), c.get("undefined_ahead", 0))
+    case(ctx, random.Random(ctx.seed), c["size"], c["position"], "lint" in c.get("commands", []), c.get("undefined_ahead", 0), c.get("listener", False))
     return {"spec_failures": [d for _, d in ctx.spec_failures][:3], "disagreements": [d for _, d in ctx.tie_breaks][:3]}
